@@ -14,7 +14,7 @@ export function* generate({ tier, seed }) {
   // the union of the other generators' cases (transform side only) plus the C07 workload (fuzz, odd forms, adversarial, corpus)
   yield* C07.workload({ tier, seed, prefix: 'C08' });
   const rng = mulberry32(seed * 32452843 + 31);
-  const keep = tier === 'quick' ? 0.3 : 1;
+  const keep = tier === 'quick' ? 0.25 : 0.6;
   for (const [name, mod] of Object.entries({ C01, C03, C04, C05, C11, C13 })) {
     for (const g of mod.generate({ tier, seed })) {
       if (rng() > keep) continue;
